@@ -147,6 +147,11 @@ class TcpConnection(object):
         data = struct.pack('i', len(data)) + data
         self.__writeBuffer += data
         self.__trySendBuffer()
+        if self.__writeBuffer and self.__state == CONNECTION_STATE.CONNECTED and self.__fileno is not None:
+            # The socket buffer is full: ask the poller to tell us when the rest can be written
+            self.__poller.subscribe(self.__fileno,
+                                    self.__processConnection,
+                                    POLL_EVENT_TYPE.READ | POLL_EVENT_TYPE.WRITE | POLL_EVENT_TYPE.ERROR)
 
     def fileno(self):
         return self.__fileno
